@@ -1461,7 +1461,8 @@ class OMPParallelDirective(OMPRegionDirective):
         # Keep the first two children and compute the rest using the current
         # state of the node/tree (lowering it first in case new symbols are
         # created)
-        self._children = self._children[:2]
+        while len(self.children) > 2:
+            self.children.pop()
         for child in self.children:
             child.lower_to_language_level()
 
